@@ -248,6 +248,37 @@ fn check_type(ty: SignType, name: &str, expect: Option<(u8, u8, u32, u32)>, rep:
             if off == block {
                 continue;
             }
+            // ... and the off-size block ALONE: the sign takes its size from the block's size fields (the sum of the four panel
+            // widths / the width byte, and the height), whatever the type's own size is, and stores pages of that size
+            if let Some((ow, oh)) = refs::block_dims(&off) {
+                if ow > 0 && oh > 0 {
+                    let oimg = RefPage::new(7, ow, oh).image();
+                    let mut msgs = vec![RefMsg::Request(own, O_RECV_CFG), RefMsg::Data { offset: 0, data: off.clone() }, RefMsg::Count(1), RefMsg::Query(own), RefMsg::Request(own, O_RECV_PIX)];
+                    msgs.extend(oimg.chunks(16).enumerate().map(|(i, c)| RefMsg::Data { offset: (i * 16) as u16, data: c.to_vec() }));
+                    msgs.push(RefMsg::Count(oimg.len().div_ceil(16) as u16));
+                    msgs.push(RefMsg::Query(own));
+                    let mut pair = Pair::new(own, false);
+                    let mut trouble: Option<String> = None;
+                    for m in &msgs {
+                        let out = vsx::step(&mut pair, m);
+                        if out.panic.is_some() {
+                            trouble = Some("panicked".into());
+                            break;
+                        }
+                        if let Some((cls, d)) = out.diffs.first() {
+                            trouble = Some(format!("{}: {}", cls, d));
+                            break;
+                        }
+                    }
+                    rep.count("virtual_sign_off_size_block_alone");
+                    let pages = pair.sign.pages();
+                    let stored_ok = pages.len() == 1 && pages[0].width() == ow && pages[0].height() == oh && pages[0].as_bytes() == &oimg[..];
+                    if trouble.is_some() || !stored_ok {
+                        let what = format!("configured with a block of this family and id whose size fields say {} x {}, then sent a page of that size: the virtual sign holds {} page(s) of {:?}{}", ow, oh, pages.len(), pages.first().map(|p| (p.width(), p.height())), trouble.map(|t| format!(" ({})", t)).unwrap_or_default());
+                        rep.violation(MON_T, "virtual_sign_misreads_the_size_fields", &format!("{}:{}:alone", name, tweak), format!("{}: {}", name, what), J::obj(vec![("type", J::s(name)), ("off_size_block", J::hex(&off)), ("observed", J::s(what.clone()))]));
+                    }
+                }
+            }
             for variant in 0..2 {
                 let mut msgs = vec![RefMsg::Request(own, O_RECV_CFG), RefMsg::Data { offset: 0, data: off.clone() }];
                 if variant == 0 {
@@ -632,6 +663,7 @@ pub fn run(ctx: &Ctx) -> Outcome {
         floor("a sign configured by a controller of every other type, then by a controller of this type (11 x 10 x 2)", report.get("controller_reconfigurations") == 220, report.get("controller_reconfigurations")),
         floor("a 16-byte chunk of neither family next to the block, for every type", report.get("virtual_sign_noise_chunk_next_to_the_block") >= 11 * 14, report.get("virtual_sign_noise_chunk_next_to_the_block")),
         floor("a block of the same family and id with other size bytes before the genuine block, then a page of the genuine size, for every type", report.get("virtual_sign_off_size_block_before_the_genuine_one") >= 11 * 4, report.get("virtual_sign_off_size_block_before_the_genuine_one")),
+        floor("a block of a supported family and id with other size fields alone, then a page of the size those fields give", report.get("virtual_sign_off_size_block_alone") >= 30, report.get("virtual_sign_off_size_block_alone")),
         floor("an unsupported block after a supported one, for every type", report.get("virtual_sign_unsupported_block_after_supported") >= 44, report.get("virtual_sign_unsupported_block_after_supported")),
         floor("virtual sign reconfigured from every other type (11 x 10 x 2 histories)", report.get("virtual_sign_reconfigurations") == 220, report.get("virtual_sign_reconfigurations")),
         floor("virtual sign configured with every type's block", report.get("virtual_sign_configurations") >= 11, report.get("virtual_sign_configurations")),
